@@ -5,6 +5,7 @@ import (
 	"encoding/json"
 	"fmt"
 	"math/rand"
+	"time"
 
 	"verif/harness/cbsim"
 	"verif/harness/drv"
@@ -20,6 +21,15 @@ func c16Spec(rng *rand.Rand, i int) (*SessSpec, string) {
 	kind := []string{"scrape", "scrape", "lowhigh", "reopen", "closed", "rebalance"}[i%6]
 	if i%12 == 1 {
 		kind = "open-end"
+	}
+	if i%12 == 7 {
+		kind = "notified"
+	}
+	if kind == "scrape" && i%3 == 0 {
+		// a skip window: dropped events are not counted
+		sp.SkipUntil = time.Now().Unix() - int64(rng.Intn(3))
+		o.SkipUntil = sp.SkipUntil
+		o.CasAround = true
 	}
 	for vb := 0; vb < sp.NumVB; vb++ {
 		for s := 0; s < 1+rng.Intn(2); s++ {
@@ -40,6 +50,18 @@ func c16Spec(rng *rand.Rand, i int) (*SessSpec, string) {
 	}
 	sp.Steps = append(sp.Steps, Step{Op: "barrier"}, Step{Op: "metrics"})
 	switch kind {
+	case "notified":
+		// a new numbering has been announced but the stream is still open on the old assignment (the library is held at the very
+		// beginning of the rebalance): member number, group size and range are still those of the assignment in effect
+		sp.Membership = "dynamic"
+		sp.FirstInfo = [2]int{1, 1}
+		round()
+		total := 2 + rng.Intn(2)
+		if total > sp.NumVB {
+			total = sp.NumVB
+		}
+		sp.Steps = append(sp.Steps, Step{Op: "holdeh", Sel: "BRS"}, Step{Op: "membership", N: 1 + rng.Intn(total), VB: total}, Step{Op: "waitheld", Sel: "BRS"}, Step{Op: "metrics"},
+			Step{Op: "releaseeh"}, Step{Op: "waitrebalance", N: 1}, Step{Op: "barrier"}, Step{Op: "metrics"})
 	case "open-end":
 		// a vBucket stream ends for good while the streams of the assignment are still being opened (the last stream request is
 		// unanswered): the active-stream gauge must read assigned - 1 afterwards
@@ -143,13 +165,23 @@ func OracleMetrics(tr *Trace) ([]Finding, int) {
 			n++
 			continue // scraping while closed: must only succeed (checked above)
 		}
+		// the numbering in effect is the one the current open was computed from: the latest announcement made before the first
+		// stream request of that open (an announcement that has not led to a reopen yet is not in effect)
+		firstReq := m.TCall
+		for _, segs := range tr.Segs {
+			for _, sg := range segs {
+				if sg.ReqT >= lastOpen && sg.ReqT < firstReq {
+					firstReq = sg.ReqT
+				}
+			}
+		}
 		member, total := 1, 1
 		rebalances := 0
 		for _, r := range tr.Log {
 			if r.T >= m.TCall {
 				break
 			}
-			if r.K == "ctl.membership" {
+			if (r.K == "ctl.membership" || r.K == "ctl.membership.call") && r.T < firstReq {
 				member, total = int(r.A), int(r.B)
 			}
 			if r.K == "eh.ARE" {
